@@ -157,6 +157,38 @@ theorem special_occurrences_consumed (specials : List Special) (hne : ∀ q ∈ 
   ⟨fragments_lit specials s, fun q hq => fragments_noOcc specials hne s q hq,
    fun _ _ _ _ => rfl, fun _ _ => rfl, fun _ _ _ _ => rfl, fun _ _ => rfl⟩
 
+/-! ## histories of calls on one tokenizer -/
+
+/-- **No state between calls.**  For every history of calls on one tokenizer object (either family: `enc` is
+    any encoder parameterised by the special-token list, e.g. `bpeEncode pinned V split · c` or
+    `spmEncode V · c`), starting from a fresh object or from one that has been used before, the i-th result is
+    the single-call result on the i-th input: the only state carried between calls is the cache of the
+    special-token list, and it is either empty or equal to what `SpecialVocabulary` computes. -/
+theorem history_stateless {α} (enc : List Special → α → List Nat) (compute : List Special)
+    (st : TokState) (hst : st.special = none ∨ st.special = some compute) (xs : List α) :
+    runHistory enc compute st xs = xs.map (enc compute) := by
+  induction xs generalizing st with
+  | nil => rfl
+  | cons x xs ih =>
+    simp only [runHistory, encodeCall, List.map_cons]
+    rcases hst with h | h
+    · simp only [specialVocabulary, h]
+      rw [ih _ (Or.inr rfl)]
+    · simp only [specialVocabulary, h]
+      rw [ih _ (Or.inr h)]
+
+/-- the two instances: a history of BPE calls / SPM calls from a fresh tokenizer -/
+theorem bpe_history_stateless (pinned : Bool) (V : Vocab) (split : Str → List Str) (specials : List Special)
+    (c : AddCfg) (texts : List Str) :
+    runHistory (fun sps s => bpeEncode pinned V split sps c s) specials TokState.init texts
+      = texts.map (bpeEncode pinned V split specials c) :=
+  history_stateless _ specials _ (Or.inl rfl) texts
+
+theorem spm_history_stateless (V : Vocab) (specials : List Special) (c : AddCfg) (texts : List Str) :
+    runHistory (fun sps s => spmEncode V sps c s) specials TokState.init texts
+      = texts.map (spmEncode V specials c) :=
+  history_stateless _ specials _ (Or.inl rfl) texts
+
 /-! ## SentencePiece -/
 
 /-- **SPM merge loop, with exactly the Go code's size-only staleness test: every part it leaves is a token
